@@ -262,6 +262,10 @@ LEVEL_NOTE = ("bounded shapes (see outside_bounds) with symbolic values; cryptog
               "and described in FINDINGS.md (O1-O5); finding F1 (publications-file PUB-02 rule ignored the aggregation time) was reproduced, fixed in /repo (fdc15f8) and is now proved absent; "
               "CBMC C semantics; 37 seeded mutations of policy.c / verification_rule.c / publicationsfile.c are all caught (MUTATIONS.md)")
 
+for h in H:
+    if h["name"] != "hb_anchor" and "--slice-formula" not in h.get("cbmc_flags", []):
+        h["cbmc_flags"] = h.get("cbmc_flags", []) + ["--slice-formula"]      # measured: 3.4M -> 0.1M variables on the download instances
+
 PLAN = {
     "property": "C04",
     "outside": OUTSIDE,
